@@ -345,15 +345,29 @@ theorem frontBody_sim (hg : Cfg.Good c) (h : R st ss) (m : Meth) (w : World) :
     · exact h
   · exact h
 
+theorem frontGuarded_cache (c : Cfg) (m : Meth) (st : St) (w : World) :
+    (frontGuarded c m st w).1.cache = st.cache := by
+  unfold frontGuarded
+  split
+  · rfl
+  · exact frontBody_cache c m st w
+
+theorem frontGuarded_sim (hg : Cfg.Good c) (h : R st ss) (m : Meth) (w : World) :
+    R (frontGuarded c m st w).1 (bodyG m ss w).1 ∧ (frontGuarded c m st w).2 = (bodyG m ss w).2 := by
+  unfold frontGuarded bodyG
+  split
+  · exact ⟨h, rfl⟩
+  · exact frontBody_sim hg h m w
+
 theorem call_sim (hg : Cfg.Good c) (h : R st ss) (m : Meth) (w : World) :
     R (call c m st w).1 (callS m ss w).1 ∧ (call c m st w).2 = (callS m ss w).2 := by
   unfold call callS
   cases hf : m.front with
-  | none => exact frontBody_sim hg h m w
+  | none => exact frontGuarded_sim hg h m w
   | some f =>
     simp only [hg.mf f, if_true, h.inBlock_cache]
     cases hc : st.cache with
-    | none => simpa using frontBody_sim hg h m w
+    | none => simpa using frontGuarded_sim hg h m w
     | some d =>
       have hl := h.ffun f
       simp only [hc, Option.bind_some] at hl
@@ -362,10 +376,10 @@ theorem call_sim (hg : Cfg.Good c) (h : R st ss) (m : Meth) (w : World) :
       | some v => exact ⟨h, rfl⟩
       | none =>
         simp only
-        have h1 := frontBody_sim hg h m w
-        have h2 := frontBody_cache c m st w
-        rcases hm : frontBody c m st w with ⟨st1, r1⟩
-        rcases hs : bodyS m ss w with ⟨ss1, r1'⟩
+        have h1 := frontGuarded_sim hg h m w
+        have h2 := frontGuarded_cache c m st w
+        rcases hm : frontGuarded c m st w with ⟨st1, r1⟩
+        rcases hs : bodyG m ss w with ⟨ss1, r1'⟩
         rw [hm, hs] at h1
         rw [hm] at h2
         obtain ⟨hR1, he⟩ := h1
@@ -636,8 +650,15 @@ theorem bodyS_out (m : Meth) (w : World) (ss ss' : SSt) (h : ss.depth = 0) (h' :
   | error e => rfl
   | ok cs => simp only; split <;> rfl
 
+theorem bodyG_out (m : Meth) (w : World) (ss ss' : SSt) (h : ss.depth = 0) (h' : ss'.depth = 0) :
+    (bodyG m ss w).2 = (bodyG m ss' w).2 := by
+  unfold bodyG
+  split
+  · rfl
+  · exact bodyS_out m w ss ss' h h'
+
 theorem callS_out (m : Meth) (w : World) (ss : SSt) (h : ss.depth = 0) :
-    callS m ss w = bodyS m ss w := by
+    callS m ss w = bodyG m ss w := by
   unfold callS
   have hin : inBlock ss = false := by simp [inBlock, h]
   cases m.front <;> simp [hin]
@@ -646,11 +667,11 @@ theorem callS_out (m : Meth) (w : World) (ss : SSt) (h : ss.depth = 0) :
 theorem fresh_after_exit (c : Cfg) (hg : c.Good) (ops : List Op) (m : Meth)
     (hout : (runAll c Sys.init ops).st.stack = []) :
     (call c m (runAll c Sys.init ops).st (runAll c Sys.init ops).w).2 =
-      (bodyS m SSt.init (runAll c Sys.init ops).w).2 := by
+      (bodyG m SSt.init (runAll c Sys.init ops).w).2 := by
   have hR := (reach_sim c hg ops).1
   have hd := (hR.out hout).1
   rw [(call_sim hg hR m _).2, callS_out m _ _ hd]
-  exact bodyS_out m _ _ _ hd rfl
+  exact bodyG_out m _ _ _ hd rfl
 
 /-- 3b. leaving the outermost level clears both caches, however it is left -/
 theorem exit_outermost_clears (c : Cfg) (hg : c.Good) (ops : List Op) (b : Bool)
@@ -726,9 +747,13 @@ theorem platCall_ne_ni (c : Cfg) (m : Meth) (st : St) (w : World) :
 /-- the modelled methods never raise NotImplementedError -/
 theorem call_ne_ni (c : Cfg) (m : Meth) (st : St) (w : World) :
     (call c m st w).2 ≠ .error .notImplemented := by
-  unfold call frontBody
-  have h1 := platCall_ne_ni c m (if m.guard then guardProbe st w else st) w
-  rcases hm : platCall c m (if m.guard then guardProbe st w else st) w with ⟨st1, r1⟩
+  have h1 : (frontGuarded c m st w).2 ≠ .error .notImplemented := by
+    unfold frontGuarded frontBody
+    split
+    · simp
+    · exact platCall_ne_ni c m _ w
+  unfold call
+  rcases hm : frontGuarded c m st w with ⟨st1, r1⟩
   rw [hm] at h1
   (repeat' split) <;> simp_all
 
@@ -991,8 +1016,12 @@ include hfun
 
 theorem callS_pres (m : Meth) (w : World) (ss : SSt) (h : P ss) : P (callS m ss w).1 := by
   unfold callS
-  have h1 := bodyS_pres P hread m w ss h
-  rcases hm : bodyS m ss w with ⟨ss1, r1⟩
+  have h1 : P (bodyG m ss w).1 := by
+    unfold bodyG
+    split
+    · exact h
+    · exact bodyS_pres P hread m w ss h
+  rcases hm : bodyG m ss w with ⟨ss1, r1⟩
   rw [hm] at h1
   cases m.front with
   | none => exact h1
